@@ -613,7 +613,8 @@ EvChoices(s) ==
   ELSE LET one == {[v |-> v, age |-> ag, hback |-> hb, power |-> p] :
                      v \in (IF EvUnknown THEN Users ELSE s.pkrel), ag \in {0, MaxEvAge, MaxEvAge + 1}, p \in EvPowers, hb \in EvHBacks}
        IN {<< >>} \cup {<< e >> : e \in one}
-          \cup (IF EvTwo THEN {<< q[1], q[2] >> : q \in {r \in one \X one : r[1].v # r[2].v /\ r[2].age = 0 /\ r[2].hback = 1}} ELSE {})
+          \cup (IF EvTwo THEN LET plain == {e \in one : e.age = 0 /\ e.hback = 1}
+                           IN {<< q[1], q[2] >> : q \in {r \in plain \X plain : r[1].v # r[2].v}} ELSE {})
 
 TxChoices(s) ==
   LET T(k, f, t, x, fe, b) == [a |-> "Tx", kind |-> k, from |-> f, to |-> t, amt |-> x, fee |-> fe, bad |-> b]
